@@ -30,6 +30,7 @@ warnings.filterwarnings('ignore', category=SyntaxWarning)
 
 REGISTRY = {
     'C03': ['contracts.lemmas', 'contracts.c03'],
+    'C08': ['contracts.c08'],
 }
 
 BASELINE_FILE = os.path.join(HERE, 'baseline', 'obligations.json')
@@ -185,7 +186,8 @@ def run_property(prop, tier, only=None, seed=0, write_evidence=True, quiet=False
 
     for r in results:
         per_case.append(dict(case=r['case'], tier=r.get('tier'), paths=r.get('paths'), wall_s=r.get('wall_s'),
-                             obligations=len(r['obligations']), errors=r.get('n_errors', 0)))
+                             obligations=len(r['obligations']), errors=r.get('n_errors', 0),
+                             ast=sorted(str(f.get('ast_sha1')) for f in r.get('functions', []))))
         if r.get('crash'):
             errors.append("%s: engine crash: %s" % (r['case'], r['crash'][-800:]))
         for e in r.get('errors', []):
@@ -254,6 +256,9 @@ def run_property(prop, tier, only=None, seed=0, write_evidence=True, quiet=False
                         undecided.append(ob['name'] + " (counter-model does not replay natively; never proved on the baseline)")
             else:
                 undecided.append(ob['name'] + " (solver: unknown)")
+        for cf in r.get('cover_failures', []):
+            errors.append("%s: engine differential: native run on path model %s fails proved clauses %s / error %s"
+                          % (r['case'], cf['inputs'], cf['failed'], cf['error']))
         # seed failures on clauses that the solver proved => engine unsound or spec mismatch
         for s in r.get('seed_failures', []):
             for cl in s['replay'].get('failed', []):
@@ -273,7 +278,9 @@ def run_property(prop, tier, only=None, seed=0, write_evidence=True, quiet=False
                 errors.append("case %s of the baseline is missing" % cname)
             elif got[0]['obligations'] < cnt:
                 h_old = baseline.get('case_ast', {}).get(cname)
-                errors.append("case %s generated %d obligations, baseline has %d" % (cname, got[0]['obligations'], cnt))
+                if h_old is not None and h_old == got[0].get('ast'):
+                    errors.append("case %s generated %d obligations, baseline has %d although its functions are unchanged"
+                                  % (cname, got[0]['obligations'], cnt))
 
     wall = time.time() - t0
     for k in known_hits:
@@ -296,6 +303,7 @@ def run_property(prop, tier, only=None, seed=0, write_evidence=True, quiet=False
                bounded_obligations=n_bounded, bounded_discharged=n_bounded_dis,
                backends=backends, solver_s=round(solver_s, 3),
                functions_under_contract=sorted(functions.values(), key=lambda f: f.get('qualname') or ''),
+               native_cover_runs=sum(r.get('cover_runs', 0) for r in results),
                cases=per_case, samples=samples or [dict(note="no proved obligation to sample")],
                undecided=undecided[:50], violations=[v[0] for v in violations],
                known_findings=[k.get('id') for k in known_hits], engine_notes=sorted(notes), meta=metas,
@@ -357,7 +365,8 @@ def do_baseline(props):
         rc = run_property(prop, 'quick', write_evidence=False)
         last = run_property.last
         base[prop] = dict(proved=sorted(last['proved']),
-                          case_obligations=dict((pc['case'], pc['obligations']) for pc in last['per_case']))
+                          case_obligations=dict((pc['case'], pc['obligations']) for pc in last['per_case']),
+                          case_ast=dict((pc['case'], pc['ast']) for pc in last['per_case']))
         print("baseline %s: rc=%d proved=%d" % (prop, rc, len(last['proved'])))
     os.makedirs(os.path.dirname(BASELINE_FILE), exist_ok=True)
     with open(BASELINE_FILE, 'w') as f:
